@@ -4,6 +4,7 @@ package main
 // decides exactly which frames are on the wire at the signal, and an x/net http2 server as upstream.
 
 import (
+	"bufio"
 	"bytes"
 	"fmt"
 	"io"
@@ -62,6 +63,7 @@ func h2Upstream(arr *arrivals) (string, func()) {
 
 type h2Client struct {
 	c      net.Conn
+	br     *bufio.Reader
 	fr     *http2.Framer
 	enc    *hpack.Encoder
 	ebuf   bytes.Buffer
@@ -88,7 +90,8 @@ func newH2(addr string) (client, error) {
 		return nil, err
 	}
 	h := &h2Client{c: c, sid: 0}
-	h.fr = http2.NewFramer(c, c)
+	h.br = bufio.NewReaderSize(c, 4096)
+	h.fr = http2.NewFramer(c, h.br)
 	h.fr.SetMaxReadFrameSize(1 << 20)
 	h.enc = hpack.NewEncoder(&h.ebuf)
 	h.dec = hpack.NewDecoder(4096, nil)
@@ -237,6 +240,7 @@ func (h *h2Client) pump(upto int) error {
 func (h *h2Client) BigSize() int   { return 256 << 10 }
 func (h *h2Client) GoneAway() bool { return h.goaway }
 func (h *h2Client) Refused() bool  { return h.refused }
+func (h *h2Client) Alive() bool    { return peekAlive(h.c, h.br) }
 
 func (h *h2Client) ReadHalf() error { return h.pump(32 << 10) }
 
